@@ -675,6 +675,9 @@ func init() {
 			defer lib.CleanScratch()
 			lib.Cases(c, func(yield func(c37Case) bool) { c37Enumerate(c, yield) }, runC37Case)
 		},
-		Replay: lib.ReplayCases(runC37Case),
+		Replay: func(c *lib.Ctx, raw json.RawMessage) []lib.Problem {
+			defer lib.CleanScratch()
+			return lib.ReplayCases(runC37Case)(c, raw)
+		},
 	})
 }
